@@ -20,7 +20,8 @@ SHAPE_ORDER = {"direct": 0, "late": 1, "ancestors": 2, "deps_first": 3, "sibling
 INVS = ("I1", "I2", "I3")
 
 def _cfg_text(protocol, invs, liveness):
-    return ("SPECIFICATION Spec\nCONSTANTS T = 3\n MaxLen = 3\n Budget = 5\n Protocol = \"%s\"\n Statics <- StaticsManif\n"
+    # small bound: the matrix only asks which invariant is able to reject which defect (2 threads suffice)
+    return ("SPECIFICATION Spec\nCONSTANTS T = 2\n MaxLen = 2\n Budget = 3\n Protocol = \"%s\"\n Statics <- StaticsManif\n"
             " Deps <- DepsManif\n ConstOps <- ConstOpsManif\n ExpectCycle = FALSE\n" % protocol
             + "".join("INVARIANT %s\n" % i for i in invs) + ("PROPERTY L\n" if liveness else "") + "CHECK_DEADLOCK TRUE\n")
 
@@ -204,7 +205,7 @@ def run(tier, seed):
     for i, p in enumerate(plans): p["id"] = i + 1
     catalogue = sorted({c["op"] for c in cells if c.get("kind") in ("static", "constop")} | {o for p in plans for t in p["threads"] for o in t})
     if tier == "quick":
-        sched = [("tsan", p, 0) for p in plans if p["shape"] != "siblings"] + [("plain", p, 0) for p in plans]
+        sched = [("tsan", p, r) for r in range(2) for p in plans] + [("plain", p, 0) for p in plans]
         par = 3
     else:
         sched = [("tsan", p, r) for r in range(12) for p in plans] + [("plain", p, r) for r in range(7) for p in plans]
@@ -227,7 +228,7 @@ def run(tier, seed):
         t0 = time.time()
         rc, lines, report, so = launch(bins[b], b, "mt", plan_string(p["threads"]), os.path.join(wd, "run_%d.ndjson" % i), s, p["id"], wd, "run_%d" % i)
         return i, rc, lines, report, so, time.time() - t0
-    t0 = time.time(); events = []; races = 0; crashes = 0; contended = collections.Counter()
+    t0 = time.time(); events = []; races = 0; crashes = 0; contended = collections.Counter(); overlap = collections.Counter()
     with cf.ThreadPoolExecutor(par) as ex:
         outs = list(ex.map(one, range(len(sched))))
     for i, rc, lines, report, so, dt in outs:
@@ -246,14 +247,21 @@ def run(tier, seed):
             d = {"e": "crash"}; d.update(common); d["rc"] = rc; d["threads"] = p["threads"]; d["events"] = len(lines); d["expected"] = nops
             d["output"] = so[-1500:]
             events.append(json.dumps(d))
+        first = []
         for l in lines:
             e = json.loads(l); e.update(common)
             e["ref"] = ref.get((b, s, e["op"]), [])
+            if e.get("i") == 1: first.append((e.get("t0", 0), e.get("t1", 0)))
             events.append(json.dumps(e))
+        # evidence that the first uses really overlapped in time (not a verdict): some thread started its first
+        # operation before another one had finished its first operation
+        if len(first) > 1 and max(a for a, _ in first) < max(z for _, z in first) and sorted(first)[1][0] < min(z for _, z in first):
+            overlap[b] += 1
     rep.extra["launches"] = {"total": len(sched), "tsan": sum(1 for x in sched if x[0] == "tsan"), "plain": sum(1 for x in sched if x[0] == "plain"),
                              "threads_per_launch": 8, "wall_s": round(time.time() - t0, 1), "tsan_reports": races, "crashes": crashes,
                              "plans": len(plans), "statics_contended": len(contended), "min_launches_per_contended_static": min(contended.values()) if contended else 0,
-                             "reference_processes": len(seeds)}
+                             "reference_processes": len(seeds),
+                             "launches_with_overlapping_first_operations": dict(overlap)}
     missing = sorted(set(inst) - set(contended))
     if missing:
         raise vlib.ModelError("statics never contended by any plan: %s" % missing)
